@@ -26,7 +26,8 @@ theorem sinv_tstep {t : Tid} {g g' : Glob} {th th' : Thread}
   · split at h
     · cases h
     all_goals (simp only [Option.some.injEq, Prod.mk.injEq, reduceCtorEq, if_false] at h; obtain ⟨rfl, rfl⟩ := h; simp_all)
-  · split at h <;> simp only [Option.some.injEq, Prod.mk.injEq] at h <;> obtain ⟨rfl, rfl⟩ := h <;> simp_all
+  · simp only [reduceCtorEq, false_and, if_false] at h
+    split at h <;> simp only [Option.some.injEq, Prod.mk.injEq] at h <;> obtain ⟨rfl, rfl⟩ := h <;> simp_all
   · split at h
     · simp only [Option.some.injEq, Prod.mk.injEq] at h; obtain ⟨rfl, rfl⟩ := h; simp_all
     · cases h
